@@ -80,8 +80,11 @@ def _seq(group, position):
     return seq
 
 
+NEUTRAL = [False]  # --neutraln --neutralc (PARSE only) for the duration of one obligation
+
+
 def _args(ff, ffout, ph, keep_chain=True):
-    a = fixtures.Args(ff=ff, ffout=ffout, ph=ph, pka_method="propka", debump=True, opt=True, keep_chain=keep_chain)
+    a = fixtures.Args(ff=ff, ffout=ffout, ph=ph, pka_method="propka", debump=True, opt=True, keep_chain=keep_chain, neutraln=NEUTRAL[0], neutralc=NEUTRAL[0])
     return a
 
 
@@ -131,12 +134,12 @@ def _reference(ff, seq, idx, patch, ffout=None):
     """Concrete run with the state forced by applying *patch* to residue idx
     (None = default state): is the state parameterisable, and what does the
     residue look like?  Uses the real pipeline, no pKa logic."""
-    key = (ff, tuple(seq), idx, patch, ffout)
+    key = (ff, tuple(seq), idx, patch, ffout, NEUTRAL[0])
     if key in _REF_CACHE:
         return _REF_CACHE[key]
     from pdb2pqr import main
 
-    bm, defn = fixtures.prepared(fixtures.peptide_lines(seq))
+    bm, defn = fixtures.prepared(fixtures.peptide_lines(seq), neutraln=NEUTRAL[0], neutralc=NEUTRAL[0])
     res = bm.residues[idx]
     out = {"supported": False, "sc": None, "tn": None, "tc": None, "charge": None, "missing": None, "natoms": None}
     try:
@@ -153,7 +156,15 @@ def _reference(ff, seq, idx, patch, ffout=None):
     return out
 
 
-def h_titration(eng, ff, ffout, group, position, keep_chain=True, start=1):
+def h_titration(eng, ff, ffout, group, position, keep_chain=True, start=1, neutral=False):
+    NEUTRAL[0] = bool(neutral)
+    try:
+        return _h_titration(eng, ff, ffout, group, position, keep_chain, start)
+    finally:
+        NEUTRAL[0] = False
+
+
+def _h_titration(eng, ff, ffout, group, position, keep_chain=True, start=1):
     from pdb2pqr import biomolecule as biomol
     from pdb2pqr import main
 
@@ -161,7 +172,7 @@ def h_titration(eng, ff, ffout, group, position, keep_chain=True, start=1):
     idx = POS[position]
     ph = eng.real("ph", 0, 14)
     pkas = {"group": eng.real("pka"), "N+": eng.real("pka_n"), "C-": eng.real("pka_c")}
-    bm, defn = fixtures.prepared(fixtures.peptide_lines(seq, start=start))
+    bm, defn = fixtures.prepared(fixtures.peptide_lines(seq, start=start), neutraln=NEUTRAL[0], neutralc=NEUTRAL[0])
     cap = _Capture()
     lg = logging.getLogger("pdb2pqr")
     old_level = lg.level
@@ -222,8 +233,11 @@ def h_titration(eng, ff, ffout, group, position, keep_chain=True, start=1):
     patch, dprot = GROUPS[group]
     judge(group, target, patch, dprot, pkas["group"], [f"{group} {target.res_seq} {target.chain_id}"])
     n_res, c_res = bm.residues[0], bm.residues[-1]
-    judge("N+", n_res, "NEUTRAL-NTERM", True, pkas["N+"], ["N-terminal", f"N+  {n_res.res_seq:>3} {n_res.chain_id}"])
-    judge("C-", c_res, "NEUTRAL-CTERM", False, pkas["C-"], ["C-terminal", f"C-  {c_res.res_seq:>3} {c_res.chain_id}"])
+    if NEUTRAL[0]:
+        n_res = c_res = None  # the termini are fixed by the options: only the side-chain group is judged
+    if n_res is not None:
+        judge("N+", n_res, "NEUTRAL-NTERM", True, pkas["N+"], ["N-terminal", f"N+  {n_res.res_seq:>3} {n_res.chain_id}"])
+        judge("C-", c_res, "NEUTRAL-CTERM", False, pkas["C-"], ["C-terminal", f"C-  {c_res.res_seq:>3} {c_res.chain_id}"])
     # the atom count of each judged residue is the default count plus the difference every non-default group state makes
     for rid, (res, n0) in base_atoms.items():
         if n0 is None:
@@ -331,6 +345,10 @@ def obligations(tier):
                     ffouts = [None, "charmm" if ff != "charmm" else "parse"]
                 for ffout in ffouts:
                     obs.append(Obligation(f"titration-{ff}-{group}-{position}-ffout={ffout}", h_titration, dict(ff=ff, ffout=ffout, group=group, position=position), group="titration", time_cap=900))
+    # PARSE with --neutraln --neutralc: a titratable residue at a (neutral) chain end still follows its side-chain pKa
+    for group in GROUPS:
+        for position in ("nterm", "cterm"):
+            obs.append(Obligation(f"titration-parse-{group}-{position}-neutral-termini", h_titration, dict(ff="parse", ffout=None, group=group, position=position, neutral=True), group="titration", time_cap=900))
     for ff in ("parse", "amber") if tier == "quick" else FFS:
         for group in ("ASP", "LYS") if tier == "quick" else GROUPS:
             for position in ("internal",) if tier == "quick" else POS:
